@@ -17,7 +17,7 @@ fn fold_body<S: Src>(s: &mut S, inst: Inst, op: Alu) {
     if let Some(m) = m {
         let got = m.operate(x, y);
         let want = alu(op, x as u32, y as u32) as i32;
-        s.cover(true, "operate returned");
+        crate::witness!(true, "W:operate returned");
         assert!(got == want, "fold: result differs from RV32IM semantics");
     }
 }
@@ -28,7 +28,7 @@ fn scalar_body<S: Src>(s: &mut S, inst: Inst, op: Alu) {
     if let Some(m) = inst.scalar_op() {
         let got = m.operate(x, y);
         let want = alu(op, x as u32, y as u32) as i32;
-        s.cover(true, "operate returned");
+        crate::witness!(true, "W:operate returned");
         assert!(got == want, "scalar_op: result differs from RV32IM semantics");
     }
 }
